@@ -231,7 +231,7 @@ class _ManifoldDynamicsService(_DynamicsServiceBase):
         Tuple[np.ndarray, np.ndarray, np.ndarray, np.ndarray]
             The stm of the manifold.
         """
-        cache_key = self.make_key(id(self.orbit), steps, self.forward)
+        cache_key = self.make_key(id(self.orbit), self.orbit.initial_state, self.orbit.period, steps, self.forward)
         
         def _factory() -> Tuple[np.ndarray, np.ndarray, np.ndarray, np.ndarray]:
             return _compute_stm(
@@ -260,6 +260,8 @@ class _ManifoldDynamicsService(_DynamicsServiceBase):
     ) -> Tuple[float, float, List[np.ndarray], List[np.ndarray], int, int]:
         cache_key = self.make_key(
             id(self.orbit),
+            self.orbit.initial_state,
+            self.orbit.period,
             self.stable,
             self.direction,
             step,
@@ -458,7 +460,12 @@ class _ManifoldDynamicsService(_DynamicsServiceBase):
         if options is None:
             options = self.eigendecomposition_options
             
-        key = self.make_key(id(self.domain_obj), tuple(sorted(options.to_dict().items())))
+        key = self.make_key(
+            id(self.domain_obj),
+            self.orbit.initial_state,
+            self.orbit.period,
+            tuple(sorted(options.to_dict().items())),
+        )
         
         def _factory() -> StabilityPipeline:
             _, _, phi_T, _ = self.compute_stm(steps=2000)
